@@ -348,12 +348,12 @@ def scenarios(rng, tier: str) -> List[dict]:
 
     S = []
     S.append({"name": "viral-rules:enum-vs-max", "class": "viral-registry", "calls": [vrun("A", R_ENUM, "DS_rA"), vrun("B", R_MAX, "DS_rB")]})
-    S.append({"name": "viral-rules:rule-vs-none", "class": "viral-registry",
+    S.append({"name": "viral-rules:rule-vs-none", "class": "viral-registry", "thorough": True,
               "calls": [vrun("A", R_ENUM, "DS_rA"), call("run", "B", "DS_rB <- DS_1 + 1; DS_rB2 <- DS_1 * 2;", plain, dplain)]})
     S.append({"name": "viral-rules:semantic-semantic", "class": "viral-registry",
               "calls": [call("semantic", "A", R_ENUM + "DS_rA <- DS_1 + DS_1;", va), call("semantic", "B", R_MAX + "DS_rB <- DS_1 * DS_1;", va)]})
     S.append({"name": "period-format:vtl-vs-sdmx_reporting", "class": "tp-config", "calls": [tprun("A", "vtl", "DS_rA"), tprun("B", "sdmx_reporting", "DS_rB")]})
-    S.append({"name": "period-format:natural-vs-sdmx_gregorian", "class": "tp-config",
+    S.append({"name": "period-format:natural-vs-sdmx_gregorian", "class": "tp-config", "thorough": True,
               "calls": [tprun("A", "natural", "DS_rA"), call("run", "B", "DS_rB <- DS_1[filter Id_1 = 2];", tp, dtp, time_period_output_format="sdmx_gregorian")]})
     S.append({"name": "error-message:semantic-error-vs-run", "class": "dataset-output",
               "calls": [call("semantic", "A", "DS_okA <- DS_1 + 1; DS_badA <- DS_1 + DS_9;", plain),
@@ -532,7 +532,7 @@ def stress(ctx, pools: List[Tuple[str, str, List[dict]]], threads_n: int, iters:
         reset_globals()
         bad: List[Tuple[int, dict]] = []
         lock = threading.Lock()
-        stop = time.time() + (25 if ctx.tier == "quick" else 300)
+        stop = time.time() + (12 if ctx.tier == "quick" else 300)
 
         def worker(w):
             for it in range(iters):
@@ -627,7 +627,7 @@ def run(ctx):
     proved = ctx.prove("C17")
     lock_scope_check(ctx)
     scs = stored_scenarios() + scenarios(ctx.rng, ctx.tier)
-    budget = 4 if ctx.tier == "quick" else 60
+    budget = 3 if ctx.tier == "quick" else 60
     hist: Dict[str, int] = {}
     shape_items: List[Tuple[str, List[str]]] = []
     shape_names: List[str] = []
@@ -635,6 +635,8 @@ def run(ctx):
     n_sched = n_viol_sched = n_hung = 0
     t_forced = time.time()
     for sc in scs:
+        if ctx.tier == "quick" and sc.get("thorough"):
+            continue
         # solo results and traces
         solos, tagss = [], []
         for c in sc["calls"]:
@@ -653,7 +655,15 @@ def run(ctx):
         if not all(stable):
             continue
         sc["solos"], sc["tags"] = solos, tagss
-        scheds = ([("stored", sc["stored_schedule"])] if sc.get("stored_schedule") else []) + witness_schedules(tagss) + explore_schedules(ctx.rng, tagss, budget if sc["class"] != "corpus" else max(3, budget // 3),
+        wit = witness_schedules(tagss)
+        if ctx.tier == "quick" and len(wit) > 8:      # quick: one witness of each kind first, then the rest up to 8
+            seenk, first, rest = set(), [], []
+            for w in wit:
+                k = ":".join(w[0].split(":")[:3])
+                (rest if k in seenk else first).append(w)
+                seenk.add(k)
+            wit = (first + rest)[:8]
+        scheds = ([("stored", sc["stored_schedule"])] if sc.get("stored_schedule") else []) + wit + explore_schedules(ctx.rng, tagss, budget if sc["class"] != "corpus" else max(3, budget // 3),
                                                               exhaustive=(ctx.tier == "thorough" and sc["class"] in ("viral-registry", "dataset-output")))
         for sname, sched in scheds:
             f = run_forced(sc, sched)
@@ -738,7 +748,7 @@ def run(ctx):
              ("period-formats", "tp-config", by["period-format:vtl-vs-sdmx_reporting"]["calls"] + by["period-format:natural-vs-sdmx_gregorian"]["calls"][:1]),
              ("error-messages", "dataset-output", by["error-message:semantic-error-vs-run"]["calls"] + by["error-message:runtime-error-vs-run"]["calls"][:1]),
              ("parse-mix", "parse", by["parse-mix:prettify-create_ast"]["calls"] + [call("create_ast", "C", "DS_rC := DS_1[filter Me_1 > 0];")])]
-    stress(ctx, pools, threads_n=4, iters=6 if ctx.tier == "quick" else 150)
+    stress(ctx, pools, threads_n=4, iters=5 if ctx.tier == "quick" else 150)
     ctx.cov["rule"] = ("forced: (scenario, schedule) pairs — model race witnesses, 2-switch schedules over the yield points of both calls (all of them in "
                        "thorough), random multi-switch schedules; stress: calls executed by 4 free-running threads with a 1 microsecond switch interval")
     ctx.trusted.append("the deterministic scheduler of harness/props/c17.py (semaphores; one engine thread runs at a time; every wait has a timeout) and the "
